@@ -389,7 +389,24 @@ func (fx *Fx) writeStructAt(st *State, ref string, t types.Type, v Val) {
 		fsrt := fx.c.sortOf(f.Type())
 		key := fieldKey(named, f.Name())
 		h := st.heap(key, "(Array Int "+fsrt+")")
-		st.setHeap(key, "(Array Int "+fsrt+")", fmt.Sprintf("(store %s %s (%s__%s %s))", h, ref, srt, f.Name(), vt))
+		comp := fmt.Sprintf("(%s__%s %s)", srt, f.Name(), vt)
+		if fx.w.nonNilField(key) {
+			// a whole struct stored in memory (composite literal, *p = v, boxed local): fields declared nonnil are
+			// established here - that declaration is assumed at every read
+			phi := ""
+			switch fsrt {
+			case "Int":
+				phi = fmt.Sprintf("(not (= %s 0))", comp)
+			case "Slice":
+				phi = fmt.Sprintf("(not (= (s_base %s) 0))", comp)
+			case "Iface":
+				phi = fmt.Sprintf("(not (= (i_tag %s) 0))", comp)
+			}
+			if phi != "" {
+				fx.c.oblige(st, "repinv", "nonnil("+key+")", phi, "field declared nonnil is initialised with a non-nil value", fx.w.pos(fx.curPos))
+			}
+		}
+		st.setHeap(key, "(Array Int "+fsrt+")", fmt.Sprintf("(store %s %s %s)", h, ref, comp))
 	}
 }
 
